@@ -112,7 +112,7 @@ def get(doc, path):
 
 def uses_caller(nodes):
     for n in nodes:
-        if n[0] in ("CB", "CN"):
+        if n[0] in ("CB", "CN", "CP"):
             return True
         for sub in ((n[2],) if n[0] == "IF" else (n[3],) if n[0] == "FOR" else (n[1], n[2]) if n[0] == "TRY" else (n[1],) if n[0] == "TF" else ()):
             if uses_caller(sub):
@@ -141,6 +141,15 @@ def enrich(doc, r):
             lst.insert(pos, ("TX", "tx${no}t"))
         elif k < 0.8:
             lst.insert(pos, ("INC", "inc.html"))
+    # caller probes: after an abandoned <%call> a def invoked later must not see the abandoned call as its caller
+    for p, anc in sorted(node_lists(doc), key=lambda pa: len(pa[0]), reverse=True):  # deepest first, as above
+        if any(get(doc, ap)[ai][0] in ("TF", "CC") for ap, ai in anc):
+            # an anonymous block is a callable of its own (see above); inside a call's body or nested defs `caller`
+            # is either the closure argument of ccall() or fetched from the context, depending on whether the
+            # enclosing scope mentions `caller` too - the statement does not say which, so no probe there
+            continue
+        if r.random() < 0.35:
+            get(doc, p).insert(r.randint(0, len(get(doc, p))), ("CP",))
     forbodies = [p for p, anc in node_lists(doc) if anc and get(doc, anc[-1][0])[anc[-1][1]][0] == "FOR" and p[-1] == 3]
     for p in sorted(forbodies, key=len, reverse=True):
         if r.random() < 0.7:
